@@ -5,6 +5,7 @@ From Coq Require Import List ZArith NArith Bool.
 From RRSS Require Import Base.Outcome Base.Chars Base.F64 Base.F64Text Exec.Ops Front.Ast Front.Token Front.Lexer Front.Parser Front.Grammar.
 From RRSS Require Import Proofs.ParseSound Proofs.GrammarLaws Proofs.LiteralLaws.
 From RRSS Require Import Proofs.LexNumbers.
+From RRSS Require Import Proofs.ParseLayout.
 Import ListNotations.
 Open Scope N_scope.
 
@@ -74,9 +75,31 @@ Theorem C02_number_tokens_carry_numerals :
   forall prof src pts, lex prof src = Ok pts -> Forall (fun pt => num_ok (pt_tok pt)) pts.
 Proof. exact lex_numbers. Qed.
 
+(** the layout half of the property: the tree depends on the sequence of tokens — kinds and spellings — only.
+    However the two sources arrange whitespace, ignorable punctuation, comments and line layout between the same
+    tokens (byte offsets, ranges, line numbers and lexer post-states all differ), the parser returns trees that are
+    equal after erasing source positions, or rejects both.  [tksim] also asks that the raw text after a
+    `says` / `say` token up to the end of its line agrees (poetic strings are raw text) *)
+Theorem C02_tree_depends_on_tokens_only :
+  forall prof src src' pts pts',
+  lex prof src = Ok pts -> lex prof src' = Ok pts' ->
+  tksim src src' (drop_comments pts) (drop_comments pts') ->
+  same_parse (parse prof src) (parse prof src').
+Proof. exact parse_layout_invariant. Qed.
+
+Theorem C02_token_relation_reflexive : forall b l, tksim b b l l.
+Proof. exact tksim_refl. Qed.
+
+Example C02_layout_example :
+  lex Debug ex_a = Ok ex_pa /\ lex Debug ex_b = Ok ex_pb /\
+  map pt_tok (drop_comments ex_pa) <> map pt_tok (drop_comments ex_pb) /\
+  same_parse (parse Debug ex_a) (parse Debug ex_b) /\ exists p, parse Debug ex_a = ParseOk p.
+Proof. exact layout_example. Qed.
+
 Print Assumptions C02_expression_in_grammar.
 Print Assumptions C02_program_in_grammar.
 Print Assumptions C02_grammar_levels.
 Print Assumptions C02_keyword_alias_any_case.
 Print Assumptions C02_number_literal_value.
 Print Assumptions C02_string_literal_exact.
+Print Assumptions C02_tree_depends_on_tokens_only.
